@@ -48,6 +48,36 @@ def handle (op : String) (args : List String) : Option (String × String × Stri
     let m := String.intercalate "," (outs.map showOut) ++ ";off=1;buf=1"
     -- canonical forms: model END markers → compare on values + class of the end
     pure (m, s, "")
+  -- json.streamoff <events> <final>: per Decode call `InputOffset/len(Buffered)/class` (the calls go on until the third
+  -- one that does not return a value), then `;mono=` offsets never decrease, `;bounds=` after each successful call
+  -- stop(value) ≤ offset ≤ start(next) with the positions of the chunking-free specification (Spec.Json.specStreamPos),
+  -- `;cons=` after every call consumed prefix ++ Buffered ++ undelivered rest of the script = whole input
+  | "json.streamoff", evs :: fin :: _ => do
+    let final := if fin == "eof" then Model.Json.Stream.RErr.eof else .other
+    let evl ← (evs.splitOn ",").filter (· ≠ "") |>.mapM fun e =>
+      match e.splitOn ":" with
+      | ["d", h] => (fromHex h).map fun b => ({ data := b, err := none } : Model.Json.Stream.Ev)
+      | ["e", h] => (fromHex h).map fun b => ({ data := b, err := some final } : Model.Json.Stream.Ev)
+      | _ => none
+    let calls := Model.Json.Stream.decodeCalls Gen.c_json_minBufferSize Gen.c_json_minReadSize 100000 2
+      { reader := evl, final := final }
+    let all : Bytes := (evl.map (·.data)).flatten
+    let cls : Model.Json.Stream.Out → String
+      | .value .. => "V" | .eof => "EOF" | .unexpectedEof => "ERR" | .syntax => "ERR" | .readerErr => "RERR"
+    let trip := calls.map fun (o, s) => s!"{s.inputOffset}/{s.buffered.length}/{cls o}"
+    let offs := calls.map fun (_, s) => s.inputOffset
+    let mono := (offs.zip (offs.drop 1)).all fun (a, b) => a ≤ b
+    let cons := calls.all fun (_, s) =>
+      s.inputOffset ≤ all.length && all.drop s.inputOffset == s.buffered ++ (s.reader.map (·.data)).flatten
+    -- the spec's positions: element i of the spec stream against call i, while the calls return values
+    let sp := Spec.Json.specStreamPos (all.length + 2) 0 all
+    let rec chk : List (Model.Json.Stream.Out × Model.Json.Stream.St) → List (Spec.Json.SOut × Nat × Nat) → Bool
+      | (.value raw _, s) :: cs, (.value raw', _, stop) :: (o', start', x) :: ss =>
+        raw == raw' && stop ≤ s.inputOffset && s.inputOffset ≤ start' && chk cs ((o', start', x) :: ss)
+      | (.value .., _) :: _, _ => false
+      | _, _ => true
+    let m := String.intercalate "," trip ++ s!";mono={boolStr mono};bounds={boolStr (chk calls sp)};cons={boolStr cons}"
+    pure (m, "-", "")
   -- json.parserem <hex>: remainder returned by Parse = bytes after the first value and its trailing white space
   | "json.parserem", [h] => do
     let b ← fromHex h
